@@ -566,3 +566,11 @@ Proof. eexists. split; [reflexivity|]. split; reflexivity. Qed.
 (* non-vacuity examples *)
 Example wf_example : exists b, new 9 250 250 260 300 = Ok b /\ wf b /\ is_empty b = false.
 Proof. eexists. split; [reflexivity|]. split; [unfold wf; cbn; repeat split; lia | reflexivity]. Qed.
+
+Lemma C15_flip_aux b : wf b ->
+  exists c, flip_y b = Ok c /\ wf c /\ flip_y c = Ok b
+  /\ (forall x y, y <= bmax b -> (In_box c x y <-> In_box b x (bmax b - y))).
+Proof.
+  intros Hb. destruct (flip_y_total b Hb) as [c Hc]. exists c. split; [exact Hc|].
+  destruct (flip_y_spec b c Hb Hc) as [Hw Hi]. split; [exact Hw|]. split; [now apply flip_y_involutive | exact Hi].
+Qed.
